@@ -32,25 +32,26 @@ def regexCovers (j : Json) (p t : Text) : Bool :=
       | _ => false
     | _ => false)))
 
-def asyncOf (j : Json) : AsyncOracle := fun v file b =>
+def asyncOf (j : Json) : AsyncOracle := fun v path b =>
   -- outcome oracle entries are keyed by validator, file and the attribute's value (script path / condition)
   let arg := (Tag.attrGet b.attrs v.toList).getD []
   match (arr j "async").find? (fun e =>
       (e.getObjValAs? String "v").toOption = some v &&
-      (match str? e "file" with | some f => f = file | none => true) && strD e "arg" = arg) with
-  | none => .error .oracleMiss
+      (match str? e "file" with | some p => p = path | none => true) && strD e "arg" = arg) with
+  | none => .fail .oracleMiss
   | some e =>
     match e.getObjVal? "out" with
-    | .ok .null => .ok none
+    | .ok .null => .pass
     | .ok o =>
       match o.getObjValAs? String "err" with
-      | .ok k => .error (errKindOf k)
+      | .ok k => .fail (errKindOf k)
       | .error _ =>
+        if (o.getObjValAs? Bool "echo").toOption = some true then .echo else
         match o.getObjVal? "data" with
-        | .ok (.obj kvs) => .ok (some (kvs.toList.filterMap (fun (k, v) =>
-            match v with | .str s => some (k, s.toList) | _ => none)))
-        | _ => .error .oracleMiss
-    | .error _ => .error .oracleMiss
+        | .ok (.obj kvs) => .message (kvs.toList.filterMap (fun (k, v) =>
+            match v with | .str s => some (k, s.toList) | _ => none))
+        | _ => .fail .oracleMiss
+    | .error _ => .fail .oracleMiss
 
 def opsDiff (j : Json) : Text → Text → List (Nat × Nat) := fun old new =>
   match (arr j "ops").find? (fun e => strD e "old" = old && strD e "new" = new) with
